@@ -476,9 +476,7 @@ func (i *Interface) SetAbsoluteExpiry(key string, time int64) error {
 	r.Lock()
 	defer r.Unlock()
 
-	i.options.Apply(r)
-	r.Meta().SetAbsoluteExpiry(time)
-	return db.Put(r)
+	return i.putChangedMeta(db, r, func(m *record.Meta) { m.SetAbsoluteExpiry(time) })
 }
 
 // SetRelativateExpiry sets a relative (self-updating) record expiry.
@@ -491,9 +489,7 @@ func (i *Interface) SetRelativateExpiry(key string, duration int64) error {
 	r.Lock()
 	defer r.Unlock()
 
-	i.options.Apply(r)
-	r.Meta().SetRelativateExpiry(duration)
-	return db.Put(r)
+	return i.putChangedMeta(db, r, func(m *record.Meta) { m.SetRelativateExpiry(duration) })
 }
 
 // MakeSecret marks the record as a secret, meaning interfacing processes, such as an UI, are denied access to the record.
@@ -506,9 +502,7 @@ func (i *Interface) MakeSecret(key string) error {
 	r.Lock()
 	defer r.Unlock()
 
-	i.options.Apply(r)
-	r.Meta().MakeSecret()
-	return db.Put(r)
+	return i.putChangedMeta(db, r, func(m *record.Meta) { m.MakeSecret() })
 }
 
 // MakeCrownJewel marks a record as a crown jewel, meaning it will only be accessible locally.
@@ -521,9 +515,7 @@ func (i *Interface) MakeCrownJewel(key string) error {
 	r.Lock()
 	defer r.Unlock()
 
-	i.options.Apply(r)
-	r.Meta().MakeCrownJewel()
-	return db.Put(r)
+	return i.putChangedMeta(db, r, func(m *record.Meta) { m.MakeCrownJewel() })
 }
 
 // Delete deletes a record from the database.
@@ -538,9 +530,28 @@ func (i *Interface) Delete(key string) error {
 		return ErrReadOnly
 	}
 
+	return i.putChangedMeta(db, r, func(m *record.Meta) { m.Delete() })
+}
+
+// putChangedMeta applies the interface options and the given change to the
+// metadata of a record that was loaded from the database and saves the record.
+// Some storages (eg. hashmap and injected storages) and the interface cache hand
+// out the stored object itself, so the metadata is restored if the record could
+// not be saved, eg. because a PrePut hook rejected the operation.
+func (i *Interface) putChangedMeta(db *Controller, r record.Record, change func(m *record.Meta)) error {
+	var backup *record.Meta
+	if r.Meta() != nil {
+		backup = r.Meta().Duplicate()
+	}
+
 	i.options.Apply(r)
-	r.Meta().Delete()
-	return db.Put(r)
+	change(r.Meta())
+
+	err := db.Put(r)
+	if err != nil && backup != nil {
+		*r.Meta() = *backup
+	}
+	return err
 }
 
 // Query executes the given query on the database.
